@@ -1,24 +1,55 @@
 ----------------------------- MODULE PegJudge -----------------------------
 (* Judge for C02: every record of the log written by harness/c02_main.cpp
      {"f":"parse","g":grammar id,"sk":skipper name,"ch":0|1,"s":[code points],
-      "ok":..,"fatal":..,"val":[flat value],"probes":[[id,off,line,col],...]}
-   is one call of parse_string / phrase_parse_string / grammar_parse_string on the real
-   combinators.  TLC evaluates the specification's Run on the same grammar (grammars.json, env
+      "e":"string"|"stream"|"bad","ok":..,"fatal":..,"val":[flat value],
+      "probes":[[id,off,line,col],...],"locs":[[line,col],...]}
+   is one call of parse_string / phrase_parse_string / grammar_parse_string ("string"), of
+   parse_stream / phrase_parse_stream / grammar_parse_stream ("stream") or of phrase_parse_stream on
+   a stream that is put into the bad state at the end of the grammar ("bad") on the real
+   combinators; locs = the `Line l:c: ` occurrences of the error message, in order.  TLC evaluates the specification's Run on the same grammar (grammars.json, env
    GRAMMARS), skipper and input and compares success, the fatal flag of a failure, the value of a
-   success and the positions at which the probe parsers were entered.  Error text is not
-   compared. *)
+   success, the positions at which the probe parsers were entered and the error locations of a
+   failure.  Error wording is not compared. *)
 EXTENDS Peg, RecordLoop
 
 G == JsonDeserialize(IOEnv.GRAMMARS)
 GOf(id) == IF id > 9000 THEN G.recursive[id - 9000] ELSE G.grammars[id]
 
+(* Scope (docs/EXTENSION_BRIEF.md, clarification).  The statement of C02: "For every grammar assembled
+   from the fcppt.parse parsers and skippers and every input string, parsing yields exactly the outcome
+   of the documented semantics: alternatives are tried left to right with the input rewound in between,
+   repetitions and optionals are greedy and never fail (unless a fatal error occurs), sequences run the
+   skipper between their parts, negative lookahead consumes nothing, fatal errors stop backtracking, and
+   the string entry points succeed if and only if the whole input was consumed. The value produced on
+   success is the one determined by that unique derivation."  (quantifier: literal, char_set, complement,
+   char_, string, epsilon, fail, int_/uint/float_, sequence, alternative, repetition, repetition_plus,
+   optional, not_, fatal, lexeme, separator, list, convert/convert_if/construct/ignore, named,
+   recursive/base/grammar; observed at the return value of parse_string / phrase_parse_string /
+   grammar_parse_string: success value or failure, fatal flag.)
+   Inside: records of the STRING entry points of grammars built from the listed combinators - outcome,
+   fatal flag, value, and the probe positions (they are how "the input rewound in between" is observed).
+   OBSERVED ONLY (reason prefixed "obs:"; never a VIOLATION):
+     - the error locations of a failure (error messages are not in the statement);
+     - the stream entry points ("stream") and the stream that turns bad ("bad") - the statement speaks of
+       input strings and the string entry points;
+     - grammars using as_struct (not in the statement's list of combinators). *)
+UsesAsStruct(gr) ==
+  \E h \in Subterms(gr.g) \cup UNION {Subterms(gr.ps[n]) : n \in DOMAIN gr.ps} : h.k = "conv" /\ h.f = "struct"
+RecordInScope(r, gr) == r.e = "string" /\ ~UsesAsStruct(gr)
+
 PegReasons(r) ==
   LET gr == GOf(r.g) IN
   IF gr.id # r.g \/ ~(\E i \in 1..Len(gr.sks) : gr.sks[i] = r.sk) THEN {"HARNESS-PRECONDITION"}
-  ELSE LET e == Run(gr.g, G.skippers[r.sk], r.s, gr.ps) IN
+  ELSE IF r.e \notin {"string", "stream", "bad"} THEN {"HARNESS-PRECONDITION"}
+  ELSE LET e == Run(r.e, gr.g, G.skippers[r.sk], r.s, gr.ps)
+           inside == RecordInScope(r, gr)
+           Tag(w) == IF inside THEN w ELSE "obs:" \o r.e \o ":" \o w
+       IN
+       (IF r.exc THEN {"obs:" \o r.e \o ":exception-escaped"} ELSE {}) \cup
        (IF r.ok = e.ok THEN {}
-        ELSE {IF e.ok THEN "failure-where-the-semantics-succeeds" ELSE "success-where-the-semantics-fails"})
-       \cup (IF ~r.ok /\ ~e.ok /\ r.fatal # e.fatal THEN {"fatal-flag"} ELSE {})
-       \cup (IF r.ok /\ e.ok /\ r.val # e.val THEN {"value"} ELSE {})
-       \cup (IF r.probes # e.probes THEN {"probe-positions"} ELSE {})
+        ELSE {Tag(IF e.ok THEN "failure-where-the-semantics-succeeds" ELSE "success-where-the-semantics-fails")})
+       \cup (IF ~r.ok /\ ~e.ok /\ r.fatal # e.fatal THEN {Tag("fatal-flag")} ELSE {})
+       \cup (IF r.ok /\ e.ok /\ r.val # e.val THEN {Tag("value")} ELSE {})
+       \cup (IF r.probes # e.probes THEN {Tag("probe-positions")} ELSE {})
+       \cup (IF ~r.ok /\ ~e.ok /\ ~LocsMatch(r.locs, e.locs) THEN {"obs:" \o r.e \o ":error-locations"} ELSE {})
 =============================================================================
